@@ -53,15 +53,21 @@ def behaviour(rnd, nops):
     return ev
 
 
-def run(ctx, nbeh, nops=60, nfiles=16):
+def run(ctx, nbeh, nops=60, nfiles=16, client=0):
     import C19
     behs = []
     for k in range(nbeh):
         rnd = random.Random(ctx.seed * 1000003 + k * 7919 + 19)
-        behs.append(Beh(dict(n=5, srv=9, trace=k), [dict(e=e, x=[]) for e in behaviour(rnd, nops)], 0))
+        evs = behaviour(rnd, nops)
+        if client:
+            for e in evs:
+                if e[0] in ("csdo_up", "csdo_down"):
+                    e[1] = client
+        behs.append(Beh(dict(n=5, srv=9, trace=k, csdo_slot=client), [dict(e=e, x=[]) for e in evs], 0))
     pre = node_common.make_preamble(C19.fix)
-    exe = ctx.exe("default", ())
-    results = vlib.replay(exe, behs, pre, ctx.pid + "_csdotrace")
+    variant = "c2" if client else "default"
+    exe = ctx.exe(variant, ("CO_CSDO_N=2",) if client else ())
+    results = vlib.replay(exe, behs, pre, ctx.pid + "_csdotrace%d" % client)
     tdir = os.path.join(vlib.OUT, "traces", ctx.pid)
     os.makedirs(tdir, exist_ok=True)
 
@@ -102,7 +108,7 @@ def run(ctx, nbeh, nops=60, nfiles=16):
                 b = behs[bi]
                 if status != "ok":
                     m = vlib.Mismatch(bi, len(steps), "crash:" + status, [], [["died"]], b.steps[min(len(steps), len(b.steps) - 1)]["e"])
-                    ctx.violations.append((m, b, pre, "default", "csdo_trace"))
+                    ctx.violations.append((m, b, pre, variant, "csdo_trace"))
                     continue
                 f.write('{"e":"reset"}\n')
                 linemap.append((bi, -1))
@@ -169,10 +175,10 @@ def run(ctx, nbeh, nops=60, nfiles=16):
         status, steps = results[bi]
         obs = steps[si] if 0 <= si < len(steps) else []
         m = vlib.Mismatch(bi, max(si, 0), "trace-rejected", [["model", json.dumps(rej["exp"])[:400]]], obs, b.steps[max(si, 0)]["e"])
-        ctx.violations.append((m, b, pre, "default", "csdo_trace"))
+        ctx.violations.append((m, b, pre, variant, "csdo_trace"))
     ctx.traces_validated += nbeh
     ctx.steps += nev
-    ctx.mc_runs.append(dict(mode="trace-validation", module="CoCsdoTrace", traces=len(res), behaviours=nbeh, events=nev, determined_steps_compared=ndet))
+    ctx.mc_runs.append(dict(mode="trace-validation", module="CoCsdoTrace", client=client, traces=len(res), behaviours=nbeh, events=nev, determined_steps_compared=ndet))
     ctx.extra["recorded_trace_events"] = ctx.extra.get("recorded_trace_events", 0) + nev
     ctx.extra["recorded_steps_with_determined_reaction"] = ctx.extra.get("recorded_steps_with_determined_reaction", 0) + ndet
     if nacc and ndet < nacc // 4:
